@@ -46,6 +46,7 @@ func (e *Engine) mapUpdate(st *State, x *ssa.MapUpdate) {
 	k := e.valTerm(e.get(st, x.Key))
 	v := e.valTerm(e.get(st, x.Value))
 	e.emit(st, "nil", e.site(x, "nilmap"), not(eq(m.T, "0")), "assignment to entry in non-nil map "+e.posOf(x.Pos()))
+	e.escapeStore(st, &Addr{Kind: aHeap, Ref: m.T}, k+" "+v)
 	e.mapStore(st, mt, m.T, k, v)
 }
 
@@ -245,6 +246,9 @@ func (e *Engine) doAppend(st *State, instr ssa.Instruction, s, t *Val) *Val {
 	nr := e.freshName("append.reg")
 	st.declare(nr, "Int")
 	st.assume(and(sx(">", nr, "0"), not(sx("select", al, nr))))
+	e.markPrivate(st, nr)
+	// appended values stored into a non-private slice escape
+	e.escapeStore(st, &Addr{Kind: aElem, Ref: sreg}, t.T)
 	e.heapSet(st, "$alloc", "(Array Int Bool)", ite(fits, al, sx("store", al, nr, "true")))
 	ncap := e.freshName("append.cap")
 	st.declare(ncap, "Int")
